@@ -425,32 +425,70 @@ func solveOne(g *Gen, o *Obligation, dir, tag string, timeoutS int) *Result {
 	// stage 0: abstract attempt without the unfolded library definitions (proof only)
 	// (also without the ground memory axioms); an unsat answer is a proof since the
 	// query only has fewer hypotheses.
+	abs := ""
 	if !o.Cover {
-		abs := g.scriptMode(o, nil, nil, true)
+		abs = g.scriptMode(o, nil, nil, true)
 		if len(abs) < len(script) {
-			as, asolver, aout, ams := runSolvers(abs, dir, tag+"_abs", max(8, timeoutS/3), []string{"z3-new"})
+			as, asolver, aout, ams := runSolvers(abs, dir, tag+"_abs", 4, []string{"z3-new"})
 			r.Ms += ams
 			if as == "unsat" {
 				r.Status, r.Solver, r.Raw = "proved", asolver+"(light)", aout
 				return r
 			}
+		} else {
+			abs = ""
 		}
 	}
-	// stage 1: z3-new alone, short limit; stage 2: full portfolio
+	// stage 1: z3-new alone, short limit
 	status, solver, out, ms := runSolvers(script, dir, tag, 3, []string{"z3-new"})
 	ms += r.Ms
 	if status == "error" {
 		r.Status, r.Solver, r.Ms, r.Raw = "engine-error", solver, ms, out
 		return r
 	}
+	// stage 2: race the full query (z3-new, cvc5) against the light one (z3-new) for the
+	// whole limit; unsat from any of them proves, sat is accepted from the full query only
 	if status == "noanswer" {
-		which := []string{"z3-new", "cvc5"}
-		if !scriptQuantified(script) && thoroughTier {
-			which = append(which, "z3")
+		type ans struct {
+			status, solver, out string
+			ms                  int64
 		}
-		var ms2 int64
-		status, solver, out, ms2 = runSolvers(script, dir, tag, timeoutS, which)
-		ms += ms2
+		ch := make(chan ans, 2)
+		n := 1
+		go func() {
+			which := []string{"z3-new", "cvc5"}
+			if !scriptQuantified(script) && thoroughTier {
+				which = append(which, "z3")
+			}
+			s, sv, so, m := runSolvers(script, dir, tag, timeoutS, which)
+			ch <- ans{s, sv, so, m}
+		}()
+		if abs != "" {
+			n++
+			go func() {
+				s, sv, so, m := runSolvers(abs, dir, tag+"_abs", timeoutS, []string{"z3-new", "cvc5"})
+				if s != "unsat" {
+					s = "noanswer" // a model of the weakened query means nothing
+				} else {
+					sv += "(light)"
+				}
+				ch <- ans{s, sv, so, m}
+			}()
+		}
+		for i := 0; i < n; i++ {
+			a := <-ch
+			if a.ms > ms {
+				ms = a.ms
+			}
+			if a.status == "unsat" || a.status == "sat" || a.status == "error" {
+				status, solver, out = a.status, a.solver, a.out
+				break
+			}
+		}
+		if status == "error" {
+			r.Status, r.Solver, r.Ms, r.Raw = "engine-error", solver, ms, out
+			return r
+		}
 	}
 	r.Solver, r.Ms, r.Raw = solver, ms, out
 	if o.Cover {
